@@ -25,6 +25,9 @@ import copy
 
 PURE_CALLS = {"str", "len", "int", "float", "bool", "abs", "min", "max", "sum", "sorted", "list", "tuple", "set", "dict", "range", "enumerate", "zip", "reversed", "isinstance", "round", "repr", "any", "all"}
 
+PURE_METHODS = {"index", "count"}  # list / tuple / str queries
+_NONMUTATING_ROOTS = {"np", "numpy", "nla", "math", "sla", "scipy", "la", "copy"}
+
 # functions the rule modules address by name: they are analysis anchors and are never inlined away
 ANCHORS = {
     "_do_sprout", "_next_child_id", "_is_far_enough", "_is_nbc_far_enough", "_prepare_spanning_tree", "_find_root_nodes",
@@ -44,7 +47,9 @@ def _is_simple_expr(e: ast.AST) -> bool:
     for n in ast.walk(e):
         if isinstance(n, ast.Call):
             f = _u(n.func)
-            if f in PURE_CALLS:
+            if f in PURE_CALLS or (f.split(".")[0] in _NONMUTATING_ROOTS and ".random." not in f and len(f.split(".")) > 1):
+                continue
+            if isinstance(n.func, ast.Attribute) and n.func.attr in PURE_METHODS:
                 continue
             return False
         if isinstance(n, (ast.NamedExpr, ast.Yield, ast.YieldFrom, ast.Await, ast.Lambda)):
@@ -106,6 +111,75 @@ def _subst(node, mapping):
     return _Rename(mapping).visit(copy.deepcopy(node))
 
 
+def _calls_private_helper(node) -> bool:
+    """Does the code call a private, non-anchor function / method (a candidate for inlining)?"""
+    for c in ast.walk(node):
+        if isinstance(c, ast.Call):
+            nm = c.func.id if isinstance(c.func, ast.Name) else c.func.attr if (isinstance(c.func, ast.Attribute) and isinstance(c.func.value, ast.Name)) else None
+            if nm and nm.startswith("_") and not nm.startswith("__") and nm not in ANCHORS:
+                return True
+    return False
+
+
+class _CompItems(ast.NodeTransformer):
+    """N5 for comprehensions: `for k, v in D.items()` -> `for k in D.keys()` with v := D[k]; `for v in D.values()` likewise."""
+
+    def __init__(self):
+        self.changed = False
+
+    def _do(self, node, parts):
+        self.generic_visit(node)
+        gens = node.generators
+        for gi, g in enumerate(gens):
+            it = g.iter
+            if not (isinstance(it, ast.Call) and isinstance(it.func, ast.Attribute) and not it.args and not it.keywords and isinstance(it.func.value, (ast.Name, ast.Attribute))):
+                continue
+            D = it.func.value
+            if it.func.attr == "items" and isinstance(g.target, ast.Tuple) and len(g.target.elts) == 2 and all(isinstance(e, ast.Name) for e in g.target.elts):
+                k, v = g.target.elts[0].id, g.target.elts[1].id
+            elif it.func.attr == "values" and isinstance(g.target, ast.Name):
+                k, v = f"__key_of_{g.target.id}", g.target.id
+            else:
+                continue
+            if k == v:
+                continue
+            sub = {v: ast.Subscript(value=copy.deepcopy(D), slice=ast.Name(id=k, ctx=ast.Load()), ctx=ast.Load())}
+            g.target = ast.Name(id=k, ctx=ast.Store())
+            g.iter = ast.Call(func=ast.Attribute(value=copy.deepcopy(D), attr="keys", ctx=ast.Load()), args=[], keywords=[])
+            g.ifs = [_subst(c, sub) for c in g.ifs]
+            for g2 in gens[gi + 1:]:
+                g2.iter = _subst(g2.iter, sub)
+                g2.ifs = [_subst(c, sub) for c in g2.ifs]
+            for fld in parts:
+                setattr(node, fld, _subst(getattr(node, fld), sub))
+            self.changed = True
+        ast.fix_missing_locations(node)
+        return node
+
+    def visit_ListComp(self, node):
+        return self._do(node, ("elt",))
+
+    def visit_SetComp(self, node):
+        return self._do(node, ("elt",))
+
+    def visit_GeneratorExp(self, node):
+        return self._do(node, ("elt",))
+
+    def visit_DictComp(self, node):
+        return self._do(node, ("key", "value"))
+
+
+def _immutable_atom(e) -> bool:
+    """A literal constant or a module-level numeric constant such as np.inf / math.pi: the same value wherever it is evaluated."""
+    if isinstance(e, ast.Constant):
+        return True
+    if isinstance(e, ast.UnaryOp) and isinstance(e.op, (ast.USub, ast.UAdd)):
+        return _immutable_atom(e.operand)
+    if isinstance(e, ast.Attribute) and isinstance(e.value, ast.Name) and e.value.id in ("np", "numpy", "math") and e.attr in ("inf", "nan", "pi", "e", "newaxis", "NINF", "PINF", "Inf", "infty"):
+        return True
+    return False
+
+
 class _ScopeCounts:
     """Loads / stores of every name in one function (nested functions and comprehensions included)."""
 
@@ -126,7 +200,6 @@ class _ScopeCounts:
                     self.stores[nm] = self.stores.get(nm, 0) + 2
 
 
-_NONMUTATING_ROOTS = {"np", "numpy", "nla", "math", "sla", "scipy", "la"}
 
 
 def _nonmutating_call(c: ast.Call) -> bool:
@@ -197,6 +270,9 @@ class BlockNormalizer:
 
     def run(self, tree: ast.AST) -> None:
         self.scope = None
+        ci = _CompItems()
+        ci.visit(tree)
+        self.changed = self.changed or ci.changed
         self._walk(tree, None)
 
     def _walk(self, n, scope):
@@ -221,11 +297,14 @@ class BlockNormalizer:
         out = self.n1_aug(out)
         out = self.n4_guards(out, owner, fld)
         out = self.n5_items(out)
+        out = self.n13_field_names_in_loops(out)
         out = self.n3_accumulators(out)
         out = self.n2_ifexp(out)
         out = self.n8_flag_fold(out)
         out = self.n9_inline_single_use_test(out)
         out = self.n10_forward_single_use(out)
+        out = self.n11_coalesce_alias(out)
+        out = self.n12_copy_of_dead_name(out, owner, fld)
         if len(out) != len(stmts) or any(a is not b for a, b in zip(out, stmts)):
             self.changed = True
             return out if out else [ast.Pass()]
@@ -333,6 +412,8 @@ class BlockNormalizer:
             s = out[i]
             if isinstance(s, ast.For):
                 res = self._loop_to_generators(s, set())
+                if res is not None and _calls_private_helper(s):
+                    res = None  # leave the statement form to the inliner (N6); folded in a later round if the call goes away
                 if res is not None:
                     gens, inner = res
                     repl = self._fold_loop(out, i, s, gens, inner)
@@ -504,38 +585,141 @@ class BlockNormalizer:
 
     def n10_forward_single_use(self, stmts):
         """v = E ; <simple statement using v exactly once>  ->  the statement with E in place of v, when v has no other
-        definition or use in the whole function and E is evaluated at the same point (v is the first thing the next
-        statement evaluates) or E is pure and nothing evaluated before it in that statement can change what it reads."""
+        definition or use in the whole function and either E is evaluated at the same point (v is the first thing the
+        directly following statement evaluates), or E is pure and nothing executed between the definition and the use
+        can change what E reads (only assignments of call-free / numpy-only values to other local names)."""
         if self.scope is None:
             return stmts
-        out = []
+        stmts = list(stmts)
         i = 0
         while i < len(stmts):
             s = stmts[i]
-            nxt = stmts[i + 1] if i + 1 < len(stmts) else None
-            if isinstance(s, ast.Assign) and len(s.targets) == 1 and isinstance(s.targets[0], ast.Name) and nxt is not None:
-                v = s.targets[0].id
-                if self.scope.loads.get(v, 0) == 1 and self.scope.stores.get(v, 0) == 1 and not v.startswith("__key_of_"):
-                    holder, fld = None, None
-                    if isinstance(nxt, (ast.Assign, ast.AugAssign, ast.Return, ast.Expr)) or (isinstance(nxt, ast.AnnAssign) and nxt.value is not None):
-                        holder, fld = nxt, "value"
-                    elif isinstance(nxt, ast.For):
-                        holder, fld = nxt, "iter"
-                    x = getattr(holder, fld, None) if holder is not None else None
+            if not (isinstance(s, ast.Assign) and len(s.targets) == 1 and isinstance(s.targets[0], ast.Name)):
+                i += 1
+                continue
+            v = s.targets[0].id
+            if not (self.scope.loads.get(v, 0) == 1 and self.scope.stores.get(v, 0) == 1) or v.startswith("__key_of_") or v in _names_loaded(s.value):
+                i += 1
+                continue
+            pure_e = _is_simple_expr(s.value)
+            reads = _names_loaded(s.value)
+            done = False
+            for j in range(i + 1, min(i + 8, len(stmts))):
+                nxt = stmts[j]
+                holder, fld = None, None
+                if isinstance(nxt, (ast.Assign, ast.AugAssign, ast.Return, ast.Expr)) or (isinstance(nxt, ast.AnnAssign) and nxt.value is not None):
+                    holder, fld = nxt, "value"
+                elif isinstance(nxt, ast.For):
+                    holder, fld = nxt, "iter"
+                x = getattr(holder, fld, None) if holder is not None else None
+                uses_here = any(isinstance(n, ast.Name) and n.id == v for n in ast.walk(nxt))
+                if uses_here:
                     if x is not None and _single_direct_use(x, v):
                         first = _first_evaluated(x)
-                        lhs_effect_free = not isinstance(nxt, (ast.Assign, ast.AugAssign, ast.AnnAssign)) or all(isinstance(t, (ast.Name, ast.Attribute)) and (isinstance(t, ast.Name) or isinstance(t.value, ast.Name)) for t in (nxt.targets if isinstance(nxt, ast.Assign) else [nxt.target]))
-                        same_point = isinstance(first, ast.Name) and first.id == v and not isinstance(nxt, ast.AugAssign)
-                        pure_move = _is_simple_expr(s.value) and all(_nonmutating_call(c) for c in ast.walk(x) if isinstance(c, ast.Call))
-                        if lhs_effect_free and (same_point or pure_move) and v not in _names_loaded(s.value):
+                        same_point = j == i + 1 and isinstance(first, ast.Name) and first.id == v and not isinstance(nxt, ast.AugAssign)
+                        pure_move = (pure_e and all(_nonmutating_call(c) for c in ast.walk(x) if isinstance(c, ast.Call))) or _immutable_atom(s.value)
+                        if same_point or pure_move:
                             setattr(holder, fld, _subst(x, {v: s.value}))
                             ast.fix_missing_locations(holder)
+                            del stmts[i]
                             self.scope.recount()
-                            out.append(nxt)
-                            i += 2
+                            done = True
+                    break
+                # a statement between the definition and the use: only harmless local assignments may be skipped
+                if _immutable_atom(s.value) and not isinstance(nxt, (ast.FunctionDef, ast.ClassDef, ast.For, ast.While, ast.If, ast.Try, ast.With)):
+                    continue
+                if not pure_e:
+                    break
+                if not (isinstance(nxt, (ast.Assign, ast.AnnAssign)) and getattr(nxt, "value", None) is not None):
+                    break
+                tg = nxt.targets if isinstance(nxt, ast.Assign) else [nxt.target]
+                if not all(isinstance(t, ast.Name) and t.id not in reads for t in tg):
+                    break
+                if not all(_nonmutating_call(c) for c in ast.walk(nxt.value) if isinstance(c, ast.Call)):
+                    break
+            if not done:
+                i += 1
+        return stmts
+
+    def n11_coalesce_alias(self, stmts):
+        """t = E ; ... uses of t ... ; a = t   ->   a = E ; ... uses of a ...    when t is defined once, every use of t lies
+        between its definition and the alias statement in this block, and `a` is not mentioned in between."""
+        if self.scope is None:
+            return stmts
+        stmts = list(stmts)
+        j = 0
+        while j < len(stmts):
+            al = stmts[j]
+            if isinstance(al, ast.Assign) and len(al.targets) == 1 and isinstance(al.targets[0], ast.Name) and isinstance(al.value, ast.Name) and al.value.id != al.targets[0].id:
+                a, t = al.targets[0].id, al.value.id
+                if self.scope.stores.get(t, 0) == 1:
+                    i = next((k for k in range(j - 1, -1, -1) if isinstance(stmts[k], ast.Assign) and len(stmts[k].targets) == 1 and isinstance(stmts[k].targets[0], ast.Name) and stmts[k].targets[0].id == t), None)
+                    if i is not None:
+                        between = stmts[i:j]
+                        loads_between = sum(1 for st in between + [al] for x in ast.walk(st) if isinstance(x, ast.Name) and x.id == t and isinstance(x.ctx, ast.Load))
+                        a_mentioned = any(isinstance(x, ast.Name) and x.id == a for st in between for x in ast.walk(st))
+                        if loads_between == self.scope.loads.get(t, 0) and not a_mentioned and t not in _names_loaded(stmts[i].value):
+                            ren = {t: ast.Name(id=a, ctx=ast.Load())}
+                            for k in range(i, j):
+                                stmts[k] = _Rename(ren).visit(stmts[k])
+                                ast.fix_missing_locations(stmts[k])
+                            del stmts[j]
+                            self.scope.recount()
                             continue
+            j += 1
+        return stmts
+
+    def n12_copy_of_dead_name(self, stmts, owner, fld):
+        """t = a ; ... (a never mentioned again, t never mentioned before)   ->   ... with t renamed to a.
+        Only at the top level of a function body (the copy dominates every use of t)."""
+        if self.scope is None or not (isinstance(owner, (ast.FunctionDef, ast.AsyncFunctionDef)) and fld == "body"):
+            return stmts
+        stmts = list(stmts)
+        j = 0
+        while j < len(stmts):
+            al = stmts[j]
+            if isinstance(al, ast.Assign) and len(al.targets) == 1 and isinstance(al.targets[0], ast.Name) and isinstance(al.value, ast.Name) and al.value.id != al.targets[0].id:
+                t, a = al.targets[0].id, al.value.id
+                before, after = stmts[:j], stmts[j + 1:]
+                t_before = any(isinstance(x, ast.Name) and x.id == t for st in before for x in ast.walk(st)) or any(isinstance(x, ast.arg) and x.arg == t for x in ast.walk(owner.args))
+                a_after = any(isinstance(x, ast.Name) and x.id == a for st in after for x in ast.walk(st))
+                nested_def = any(isinstance(x, (ast.FunctionDef, ast.Lambda)) for st in after for x in ast.walk(st))
+                if not t_before and not a_after and not nested_def and t.startswith("__"):
+                    ren = {t: ast.Name(id=a, ctx=ast.Load())}
+                    stmts = before + [_Rename(ren).visit(st) for st in after]
+                    for st in stmts:
+                        ast.fix_missing_locations(st)
+                    self.scope.recount()
+                    continue
+            j += 1
+        return stmts
+
+    def n13_field_names_in_loops(self, stmts):
+        """for v in it: t = <attribute / item read> ; REST   ->   for v in it: REST[t := the read]      when t is a loop-local
+        name for a field of a loop-invariant-free read (no calls), defined once and used only in this loop body."""
+        if self.scope is None:
+            return stmts
+        out = []
+        for s in stmts:
+            if isinstance(s, ast.For) and not s.orelse and len(s.body) >= 2:
+                first = s.body[0]
+                if isinstance(first, ast.Assign) and len(first.targets) == 1 and isinstance(first.targets[0], ast.Name) and isinstance(first.value, (ast.Attribute, ast.Subscript)) and not any(isinstance(x, (ast.Call, ast.NamedExpr)) for x in ast.walk(first.value)):
+                    t = first.targets[0].id
+                    rest = s.body[1:]
+                    loads_in_rest = sum(1 for st in rest for x in ast.walk(st) if isinstance(x, ast.Name) and x.id == t and isinstance(x.ctx, ast.Load))
+                    stored_in_rest = set()
+                    for st in rest:
+                        stored_in_rest |= _names_stored(st)
+                    mutated_roots = {r.id for st in rest for tg in ast.walk(st) if isinstance(tg, (ast.Attribute, ast.Subscript)) and isinstance(tg.ctx, ast.Store) for r in ast.walk(tg) if isinstance(r, ast.Name)}
+                    reads = _names_loaded(first.value)
+                    if self.scope.stores.get(t, 0) == 1 and self.scope.loads.get(t, 0) == loads_in_rest and 1 <= loads_in_rest <= 3 and not (reads & stored_in_rest) and not (reads & mutated_roots) and t not in reads:
+                        new_body = [_subst(st, {t: first.value}) for st in rest]
+                        new = ast.copy_location(ast.For(target=s.target, iter=s.iter, body=new_body, orelse=[]), s)
+                        ast.fix_missing_locations(new)
+                        self.scope.recount()
+                        out.append(new)
+                        continue
             out.append(s)
-            i += 1
         return out
 
     def n2_ifexp(self, stmts):
@@ -687,7 +871,7 @@ class Inliner:
         # straight-line: no loops / try / with / nested defs; returns only as the last statement
         for s in body:
             for x in ast.walk(s):
-                if isinstance(x, (ast.For, ast.While, ast.Try, ast.With, ast.FunctionDef, ast.ClassDef, ast.Lambda, ast.Yield, ast.YieldFrom, ast.Global, ast.Nonlocal)):
+                if isinstance(x, (ast.Try, ast.With, ast.FunctionDef, ast.ClassDef, ast.Lambda, ast.Yield, ast.YieldFrom, ast.Global, ast.Nonlocal, ast.AsyncFor, ast.AsyncWith)):
                     return
         rets = [x for s in body for x in ast.walk(s) if isinstance(x, ast.Return)]
         if len(rets) > 1 or (rets and rets[0] is not body[-1]):
@@ -949,6 +1133,9 @@ def _expr_of_block(stmts, fall, depth=0):
         # (moving them past a call with effects could change what they read)
         if not isinstance(s.value, (ast.Constant, ast.Name)) and not _is_simple_expr(r):
             return None
+        uses = sum(1 for x in ast.walk(r) if isinstance(x, ast.Name) and x.id == s.targets[0].id)
+        if uses > 1 and not isinstance(s.value, (ast.Constant, ast.Name, ast.Attribute)):
+            return None  # do not duplicate computations
         return _subst(r, {s.targets[0].id: s.value})
     if isinstance(s, ast.If) and _is_simple_expr(s.test):
         r = _expr_of_block(rest, fall, depth + 1)
@@ -972,7 +1159,7 @@ def fold_pure_helpers(tree: ast.Module) -> bool:
         elif isinstance(n, ast.ClassDef):
             fns.extend(b for b in n.body if isinstance(b, ast.FunctionDef))
     for fn in fns:
-        if not fn.name.startswith("_") or fn.name.startswith("__"):
+        if not fn.name.startswith("_") or fn.name.startswith("__") or fn.name in ANCHORS:
             continue
         body = [s for s in fn.body if not (isinstance(s, ast.Expr) and isinstance(s.value, ast.Constant))]
         if len(body) <= 1:
